@@ -142,6 +142,17 @@ def insert_after(body, afters):
     return body
 
 
+def insert_before(body, befores):
+    """insert text before the statement (line) containing anchor"""
+    for anchor, text in befores:
+        idx = body.find(anchor)
+        if idx < 0 or body.find(anchor, idx + 1) >= 0:
+            raise ExtractError('anchor %r: %s' % (anchor, 'not found' if idx < 0 else 'ambiguous'))
+        ls = body.rfind('\n', 0, idx) + 1
+        body = body[:ls] + text + '\n' + body[ls:]
+    return body
+
+
 def process(unit_name, out_dir, mode='verify'):
     tpl_path = os.path.join(SPECS, unit_name + '.tpl')
     with open(tpl_path) as f:
@@ -207,10 +218,21 @@ def process(unit_name, out_dir, mode='verify'):
         if cmd == 'sub':
             pending_subs.append((toks[1], toks[2]))
             continue
+        if cmd == 'repeat':
+            # //@ repeat VAR A B   followed by lines `//@: text with {VAR}` (python-format, `{{`/`}}` for braces)
+            var, a, b = toks[1], int(toks[2]), int(toks[3])
+            tl = []
+            while i < len(lines) and lines[i].strip().startswith('//@:'):
+                tl.append(lines[i].strip()[4:].lstrip(' '))
+                i += 1
+            for k in range(a, b):
+                for t in tl:
+                    out.append(t.replace('{%s}' % var, str(k)).replace('{%s:x}' % var, '%x' % k))
+            continue
         if cmd != 'extract':
             raise ExtractError('%s: unknown directive %s' % (tpl_path, cmd))
         # gather verus continuation lines
-        contract, loop_clauses, afters, retname = [], {}, [], None
+        contract, loop_clauses, afters, retname, befores = [], {}, [], None, []
         while i < len(lines):
             s2 = lines[i].strip()
             m = re.match(r'^//@\|\s?(.*)$', s2)
@@ -226,6 +248,11 @@ def process(unit_name, out_dir, mode='verify'):
             m = re.match(r'^//@after\s+("(?:[^"\\]|\\.)*")\|\s?(.*)$', s2)
             if m:
                 afters.append((shlex.split(m.group(1))[0], m.group(2)))
+                i += 1
+                continue
+            m = re.match(r'^//@before\s+("(?:[^"\\]|\\.)*")\|\s?(.*)$', s2)
+            if m:
+                befores.append((shlex.split(m.group(1))[0], m.group(2)))
                 i += 1
                 continue
             m = re.match(r'^//@ret\s+(\w+)\s*$', s2)
@@ -253,7 +280,7 @@ def process(unit_name, out_dir, mode='verify'):
                 if n == 0:
                     raise ExtractError('sub %r did not apply to %s' % (pa, name))
                 u.rules.bump('RS', n)
-            if contract or loop_clauses or afters or retname:
+            if contract or loop_clauses or afters or retname or befores:
                 sig, body = split_fn(text)
                 if retname:
                     sig2, n = re.subn(r'->\s*(.+)$', lambda m: '-> (%s: %s)' % (retname, m.group(1).strip()), sig, count=1, flags=re.S)
@@ -262,6 +289,7 @@ def process(unit_name, out_dir, mode='verify'):
                     sig = sig2
                 body = insert_loop_clauses(body, loop_clauses)
                 body = insert_after(body, afters)
+                body = insert_before(body, befores)
                 text = sig + '\n' + '\n'.join('    ' + c for c in contract) + '\n' + body
             if 'wrap' in pos:
                 text = 'impl %s {\n%s\n}' % (kv['impl'], text)
